@@ -23,6 +23,10 @@ Ev == Tr[l]
 P == T.cfg                    \* [n, dd, ad, timely, fifo, mss, fl]
 ToSet(s) == {s[i] : i \in 1..Len(s)}
 Flag(b) == IF b THEN 1 ELSE 0
+\* several packets in flight may carry the value the record shows (copies of one segment, equal acknowledgement numbers):
+\* which of them arrived makes no difference to what follows (on a reordering path the bag counts, on a FIFO path only the
+\* head may arrive anyway), so the first one is taken -- the search stays linear in the length of the trace
+MinOf(I) == CHOOSE i \in I : \A j \in I : i <= j
 
 Init == /\ tid \in 1..Len(Traces) /\ l = 1 /\ TLCSet(tid, 1)
         /\ InitWith([n |-> P.n, dd |-> ToSet(P.dd), ad |-> ToSet(P.ad), timely |-> P.timely, fifo |-> P.fifo])
@@ -41,11 +45,11 @@ RtoEv == /\ More /\ Ev.e = "T" /\ Ev.ctx = 0 /\ Ev.re = 1
 SinkEv == /\ More /\ Ev.e = "S" /\ dq # <<>>
           /\ Ev.k = 1
           /\ Ev.n = akn + 1 /\ Ev.dr = Flag((akn + 1) \in cfg.ad)
-          /\ \E i \in 1..Len(dq) : Ev.seq = dq[i] * P.mss /\ SinkRecvAt(i)
+          /\ LET I == {i \in 1..Len(dq) : Ev.seq = dq[i] * P.mss} IN I # {} /\ SinkRecvAt(MinOf(I))
           /\ Ev.ack = Pfx(rcvd') * P.mss
           /\ Consume(1)
 AckEv == /\ More /\ Ev.e = "C" /\ Ev.nfr = 0 /\ aq # <<>>
-         /\ \E i \in 1..Len(aq) : Ev.ack = aq[i].ack * P.mss /\ AckArriveAt(i, FALSE)
+         /\ LET I == {i \in 1..Len(aq) : Ev.ack = aq[i].ack * P.mss} IN I # {} /\ AckArriveAt(MinOf(I), FALSE)
          /\ Ev.la = una' * P.mss /\ Ev.ns = nxt' * P.mss
          /\ Consume(1)
 \* a retransmission from inside put(): the "T" event is followed by the "C" event of the call that made it
@@ -53,7 +57,7 @@ FrxEv == /\ More /\ Ev.e = "T" /\ Ev.ctx = 1 /\ Ev.re = 1 /\ l + 1 <= Len(Tr) /\
          /\ LET C == Tr[l + 1] IN
               /\ C.e = "C" /\ C.nfr = 1
               /\ DataOk(Ev, una)
-              /\ \E i \in 1..Len(aq) : C.ack = aq[i].ack * P.mss /\ AckArriveAt(i, TRUE)
+              /\ LET I == {i \in 1..Len(aq) : C.ack = aq[i].ack * P.mss} IN I # {} /\ AckArriveAt(MinOf(I), TRUE)
               /\ C.la = una' * P.mss /\ C.ns = nxt' * P.mss
          /\ Consume(2)
 EndEv == /\ More /\ Ev.e = "Q"
